@@ -173,6 +173,84 @@ fn resp_status_line(c: &Value) -> Option<Value> {
     Some(json!({"op":"resp_status_line","rel":rel,"frame":c["frame"],"status":code,"line":format!("HTTP/1.1 {} {}", wcode, wphrase),"obs":obs}))
 }
 
+/// A multipart/byteranges document of n parts in the library's own framing with one structural element removed.
+fn resp_struct(c: &Value) -> Option<Value> {
+    let n = c["n"].as_u64().unwrap() as usize;
+    let at = c["at"].as_u64().unwrap() as usize;
+    let brk = c["brk"].as_str().unwrap();
+    if at > n {
+        return None;
+    }
+    let mut s = String::from("HTTP/1.1 206 Partial Content\r\n");
+    s.push_str(if brk == "no_boundary_param" { "Content-Type: multipart/byteranges\r\n\r\n" } else { "Content-Type: multipart/byteranges; boundary=String_separator\r\n\r\n" });
+    for i in 1..=n {
+        if !(i == 1 && brk == "no_opening") {
+            if i > 1 {
+                s.push_str("\r\n");
+            }
+            s.push_str("--String_separator\r\n");
+        }
+        s.push_str(&format!("Content-Type: text/plain\r\nContent-Range: bytes {}-{}/100\r\n", 10 * i, 10 * i + 1));
+        if !(brk == "no_blank_line" && i == at) {
+            s.push_str("\r\n");
+        }
+        s.push_str(&format!("p{}", i % 10));
+    }
+    if brk != "no_closing" {
+        s.push_str("\r\n--String_separator");
+    }
+    let dd = s.clone().into_bytes();
+    let obs = outcome3(guarded(move || Response::parse(&dd)), |p| json!({"nparts": p.content_range_list.len()}));
+    Some(json!({"op":"resp_struct","brk":brk,"n":n,"at":at,"doc":s,"obs":obs}))
+}
+
+/// A multipart/form-data body of n parts written by the library itself, then one structural element removed.
+fn multipart_struct(c: &Value) -> Option<Value> {
+    let n = c["n"].as_u64().unwrap() as usize;
+    let at = c["at"].as_u64().unwrap() as usize;
+    let brk = c["brk"].as_str().unwrap();
+    if at > n || (at > 1 && brk != "part_without_headers") {
+        return None;
+    }
+    let boundary = c["boundary"].as_str().unwrap().to_string();
+    let parts: Vec<Part> = (1..=n)
+        .map(|i| Part { headers: vec![Header { name: "Content-Disposition".to_string(), value: format!("form-data; name=\"f{}\"", i) }], body: format!("value{}", i).into_bytes() })
+        .collect();
+    let b2 = boundary.clone();
+    let bytes = match guarded(move || FormMultipartData::generate(parts, &b2)) {
+        Outcome::Done(Ok(b)) => b,
+        _ => return None,
+    };
+    // the document as lines (the library writes CRLF line ends)
+    let text = String::from_utf8(bytes).ok()?;
+    let mut lines: Vec<&str> = text.split("\r\n").collect();
+    let is_delim = |l: &str| l == boundary || l == format!("{}--", boundary);
+    match brk {
+        "exact" => {}
+        "no_opening" => {
+            let i = lines.iter().position(|l| is_delim(l))?;
+            lines.remove(i);
+        }
+        "no_closing" => {
+            let i = lines.iter().rposition(|l| is_delim(l))?;
+            lines.truncate(i);
+        }
+        "part_without_headers" => {
+            // the header lines of part `at` (between its delimiter and the blank line) are removed
+            let starts: Vec<usize> = lines.iter().enumerate().filter(|(_, l)| **l == boundary).map(|(i, _)| i).collect();
+            let d = *starts.get(at - 1)?;
+            let blank = (d + 1..lines.len()).find(|&j| lines[j].is_empty())?;
+            lines.drain(d + 1..blank);
+        }
+        _ => return None,
+    }
+    let doc = lines.join("\r\n").into_bytes();
+    let dd = doc.clone();
+    let b3 = boundary.clone();
+    let obs = outcome3(guarded(move || FormMultipartData::parse(&dd, b3)), |ps| json!({"nparts": ps.len()}));
+    Some(json!({"op":"multipart_struct","brk":brk,"n":n,"at":at,"boundary":boundary,"doc":String::from_utf8_lossy(&doc),"obs":obs}))
+}
+
 fn resp_corrupt(c: &Value) -> Vec<Value> {
     // corruptions of a valid serialisation; the class names what was broken
     let single = b"HTTP/1.1 200 OK\r\nContent-Type: text/plain\r\nContent-Range: bytes 0-2/2\r\nContent-Length: 2\r\n\r\nhi".to_vec();
@@ -331,6 +409,16 @@ pub fn run(o: &Opts) -> i32 {
                 "resp_all_statuses" => resp_all_statuses(&mut out),
                 "resp_status_line" => {
                     if let Some(e) = resp_status_line(c) {
+                        out.emit(&e);
+                    }
+                }
+                "resp_struct" => {
+                    if let Some(e) = resp_struct(c) {
+                        out.emit(&e);
+                    }
+                }
+                "multipart_struct" => {
+                    if let Some(e) = multipart_struct(c) {
                         out.emit(&e);
                     }
                 }
